@@ -63,8 +63,10 @@ class GenericStatementSinkAdapter(Adapter):
         return Literal(lex, language, datatype)
 
     @override
-    def namespace_declaration(self, name: str, iri: str) -> Prefix:
-        return Prefix(name, self.iri(iri))
+    def namespace_declaration(self, name: str, iri: str | IRI) -> Prefix:
+        # the decoder hands over the namespace already converted by `self.iri`
+        namespace = iri if isinstance(iri, IRI) else self.iri(iri)
+        return Prefix(name, namespace)
 
     @override
     def quoted_triple(self, terms: Iterable[Any]) -> Triple:
